@@ -76,8 +76,10 @@ def same_physical(m1, m2, rtol=1e-9, ends=()):
     return True, ''
 
 
-def model_binop(a, b, opname, sampling='min', method='linear', fill=0):
-    """The statement, executed on the list model.  -> dict(grid, value, mask, ambiguous)"""
+def model_binop(a, b, opname, sampling='min', method='linear', fill=0, live=(None, None)):
+    """The statement, executed on the list model.  -> dict(grid, value, mask, ambiguous).
+    `live`: for an operand that is not a table of samples but a law (Blackbody), the live object, whose own public
+    sample() supplies its in-range values."""
     b2 = b.to(a.unit)
     aw, bw = np.asarray(a.wave), np.asarray(b2.wave)
     minw, maxw = min(aw[0], bw[0]), max(aw[-1], bw[-1])
@@ -99,10 +101,12 @@ def model_binop(a, b, opname, sampling='min', method='linear', fill=0):
     grid = np.linspace(minw, maxw, num + 1)
     vals = []
     mask = np.ones(grid.shape, dtype=bool)
-    for w, v in ((aw, np.asarray(a.value)), (bw, np.asarray(b2.value))):
+    for (w, v), obj in zip(((aw, np.asarray(a.value)), (bw, np.asarray(b2.value))), live):
         inside = (grid >= w.min()) & (grid <= w.max())
         out = fill * np.ones(grid.shape)
-        if inside.any():
+        if inside.any() and obj is not None:
+            out[inside] = obj.sample(grid[inside], waveunit=a.unit)
+        elif inside.any():
             f = scipy.interpolate.interp1d(w, v, kind=method, copy=False, bounds_error=False, fill_value=fill)
             out[inside] = f(grid[inside])
         vals.append(out)
@@ -207,7 +211,11 @@ class ArithHooks(Hooks):
                 it.probe('disjoint_ranges')
             samp = k.get('sampling', 'min')
             it.probe('sampling:%s' % (samp if isinstance(samp, str) else 'float'))
-            exp = model_binop(ma, mb, opname, samp, k.get('method', 'linear'), k.get('fill_value', 0))
+            BB = L.radiometry.Blackbody
+            live = (a if isinstance(a, BB) else None, b if isinstance(b, BB) else None)
+            if any(live):
+                it.probe('blackbody_operand')
+            exp = model_binop(ma, mb, opname, samp, k.get('method', 'linear'), k.get('fill_value', 0), live=live)
             if exp['ambiguous']:
                 it.probe('ambiguous_grid')
             else:
@@ -330,7 +338,7 @@ class SpectrumArithScenario(Scenario):
                    'scipy.interpolate.interp1d is the trusted interpolation reference; two-element fill values are not generated for binary '
                    'operators (the statement speaks of "the fill value")']
     must_hit = ['pair:nm-nm', 'pair:nm-um', 'pair:angstrom-um', 'pair:m-nm', 'disjoint_ranges', 'sampling:left', 'sampling:right', 'sampling:float',
-                'op_repeated_after_to', 'commuted_pair', 'scalar_op', 'op_repeated_after_assignment', 'identity_scalar', 'ndarray_times_spectrum']
+                'op_repeated_after_to', 'commuted_pair', 'scalar_op', 'op_repeated_after_assignment', 'identity_scalar', 'ndarray_times_spectrum', 'blackbody_operand']
     probe_names = must_hit + ['coldwarm_audit', 'ambiguous_grid', 'pair:um-um', 'pair:angstrom-nm', 'pair:m-um', 'pair:angstrom-m']
 
     # ---------------------------------------------------------------- generation
@@ -369,7 +377,11 @@ class SpectrumArithScenario(Scenario):
             vunit = rng.choice([None, None, None, dens, dens])
             value = [round(rng.uniform(0.2, 2.0), 3) for _ in wave]
             sid = 'S%d' % j
-            events.append({'c': -1, 'fn': 'Spectrum', 'id': sid, 'a': [wave, value], 'k': {'waveunit': unit, 'valueunit': vunit}})
+            if j == n - 1 and n >= 3 and rng.random() < 0.3:
+                vunit = rng.choice(['photlam', 'wlam'])
+                events.append({'c': -1, 'fn': 'Blackbody', 'id': sid, 'a': [wave, rng.choice([3000.0, 5800.0])], 'k': {'waveunit': unit, 'valueunit': vunit}})
+            else:
+                events.append({'c': -1, 'fn': 'Spectrum', 'id': sid, 'a': [wave, value], 'k': {'waveunit': unit, 'valueunit': vunit}})
             pool.append({'id': sid, 'n': npts, 'unit': unit, 'vunit': vunit, 'wave_nm': [w / f for w in wave]})
         return pool
 
@@ -556,8 +568,11 @@ class SpectrumArithScenario(Scenario):
                 e.update(extra)
                 events.append(e)
 
+            events.append({'c': -1, 'fn': 'Blackbody', 'id': 'BB', 'a': [[w * f1 for w in (420.0, 430.0, 441.0)], 5000.0], 'k': {'waveunit': units[1], 'valueunit': 'photlam'}})
             for opname in OPS:
                 E('Spectrum.' + opname, ['@S0', '@S1'])
+            E('Spectrum.multiply', ['@BB', '@S0'])
+            E('Spectrum.add', ['@BB', '@S0'], {'fill_value': 0})
             for samp in ('left', 'right', 1.7 * f0):
                 E('Spectrum.add', ['@S0', '@S1'], {'sampling': samp})
             E('Spectrum.add', ['@S1', '@S0'], {'sampling': 'left'})       # commuted twin of sampling='right'
